@@ -409,16 +409,27 @@ func schedFaults() []fault {
 
 // runFaultSchedule runs the given refused requests as logical threads under the cooperative scheduler; every
 // response must be exactly the response the same request gets alone (status and body).
+// c19Snap is the state of all package-level variables (library and REST package) before the first request of the
+// process; restoring it makes every execution a "first use" (lazily filled caches are cold again).
+var c19Snap irt.Snapshot
+
 func runFaultSchedule(fs []fault, x *xplore.X) (obs, bad string) {
 	restInit()
+	if c19Snap == nil {
+		c19Snap = irt.SnapshotGlobals()
+	}
+	c19Snap.Restore()
 	irt.ResetPools()
 	alone := make([]restResp, len(fs))
 	stable := make([]bool, len(fs))
 	for i, f := range fs {
 		a1 := restDo(nil, f.Req.Method, f.Req.uri(), f.Req.body())
 		a2 := restDo(nil, f.Req.Method, f.Req.uri(), f.Req.body())
+		a1.Body, a2.Body = canonJSON(a1.Body), canonJSON(a2.Body)
 		alone[i], stable[i] = a1, a1 == a2
 	}
+	c19Snap.Restore() // the answers "alone" have warmed whatever is filled lazily: cold again for the overlap
+	irt.ResetPools()
 	got := make([]restResp, len(fs))
 	var bodies []func()
 	for i := range fs {
@@ -437,6 +448,7 @@ func runFaultSchedule(fs []fault, x *xplore.X) (obs, bad string) {
 		return "abnormal", fmt.Sprintf("overlapping refused requests: deadlock=%v overrun=%v panics=%v", res.Deadlock, res.Overrun, res.Panics)
 	}
 	for i := range fs {
+		got[i].Body = canonJSON(got[i].Body)
 		obs += fmt.Sprintf("[%d %s]", got[i].Status, trunc80(got[i].Body))
 		if got[i].Status != alone[i].Status || (stable[i] && got[i].Body != alone[i].Body) {
 			return obs, fmt.Sprintf("request %d (%s) overlapping with the other(s) is answered %d %s, alone it is answered %d %s", i, fs[i].Name, got[i].Status, trunc80(got[i].Body), alone[i].Status, trunc80(alone[i].Body))
@@ -553,6 +565,18 @@ func c19InProc(r *ev.Run, fl []fault, base map[string]uint64) {
 			}
 		}
 		combos = append(combos, []fault{sf[0], sf[1], sf[3]})
+		// well-formed requests meeting for the first time in the process: the same request twice, and two of a kind
+		u := ref.B32Encode(restKey)
+		ok := func(name, method, path, body string) fault { return fault{name, rawReq(method, path, body), false} }
+		suiteA := ok("POST /ocra/suite A", "POST", "/ocra/suite", `{"raw_suite":"OCRA-1:HOTP-SHA512-8:C-QH10-PSHA512-S-T1"}`)
+		suiteB := ok("POST /ocra/suite B", "POST", "/ocra/suite", `{"raw_suite":"OCRA-1:HOTP-SHA1-6:QN08"}`)
+		hg := ok("POST /hotp/generate", "POST", "/hotp/generate", fmt.Sprintf(`{"secret":%q,"counter":9,"digits":"8","algorithm":"SHA256"}`, u))
+		tv := ok("POST /totp/validate", "POST", "/totp/validate", fmt.Sprintf(`{"secret":%q,"timestamp":59,"code":%q,"skew":1}`, u, ref.HOTP(restKey, 2, 6, 0)))
+		og := ok("POST /ocra/generate", "POST", "/ocra/generate", fmt.Sprintf(`{"secret":%q,"raw_suite":"OCRA-1:HOTP-SHA1-6:QN08","input":{"challenge_hex":"3132333435363738"}}`, u))
+		ou := ok("POST /otp/url", "POST", "/otp/url", fmt.Sprintf(`{"type":"totp","secret":%q,"issuer":"I","account_name":"a"}`, u))
+		ls := ok("GET /ocra/suites", "GET", "/ocra/suites", "")
+		hm := ok("GET /", "GET", "/", "")
+		combos = append(combos, []fault{suiteA, suiteA}, []fault{suiteA, suiteB}, []fault{hg, hg}, []fault{tv, tv}, []fault{og, og}, []fault{ou, ou}, []fault{ls, ls}, []fault{hm, hm}, []fault{og, suiteB}, []fault{hg, tv}, []fault{ls, suiteA}, []fault{suiteA, suiteA, suiteA})
 		bound := 1
 		if r.Thorough() {
 			bound = 2
@@ -565,7 +589,7 @@ func c19InProc(r *ev.Run, fl []fault, base map[string]uint64) {
 			}, func(x *xplore.X) bool {
 				if lastBad != "" && nf < 2 && len(out.Fails) < 30 {
 					nf++
-					out.Fails = append(out.Fails, c19ChildFail{Scenario: "fault-schedule", Sig: faultNames(fs)[0] + " || " + faultNames(fs)[1] + ": " + lastBad, Want: "each overlapping request answered exactly as it is answered alone", Got: lastObs + " " + lastBad, Sched: &c19Sched{fs, x.Choices()}})
+					out.Fails = append(out.Fails, c19ChildFail{Scenario: "fault-schedule", Sig: strings.Join(faultNames(fs), " || ") + ": " + lastBad, Want: "each overlapping request answered exactly as it is answered alone", Got: lastObs + " " + lastBad, Sched: &c19Sched{fs, x.Choices()}})
 				}
 				return nf < 2
 			})
@@ -898,4 +922,39 @@ func c19(r *ev.Run) {
 	r.Sample(map[string]any{"sequence": []string{fl[len(fl)/2].Name, "probe", fl[len(fl)/3].Name, "probe"}, "oracle": "every response complete with a consistent status; probes answer exactly as the reference says; <= 2*10^6 statements per request"})
 	r.Rule("fault alphabet = endpoints x {15 broken-JSON forms incl. 1 MiB of '[' and 12000-deep nesting; every field x 8 JSON types; numeric fields at and beyond 64-bit limits; empty/blank/NUL/lone-surrogate/1 MiB strings; missing required fields; 6 wrong methods} + skew/period/timestamp extremes + unknown/contradictory suites + unknown paths + /docs paths; explored as sequences fault,probe (depth 1, all classes, fresh and reused ctx) and fault,probe,fault,probe (depth 2 over a core; thorough: all pairs) in-process on the instrumented handler chain with a per-request statement budget; then the whole list against the real binary on loopback (keep-alive and fresh connections) with interleaved probes; state = digest of package-level state, transition = one request; distinct = distinct (status, work) observations")
 	r.Assume("a 500 produced by the recovery middleware is a complete failure response", "the 10 s guard of the loopback pass never yields a violation by itself (reported as a cap); work bounds are decided by the statement budget", "fasthttp's connection handling beyond keep-alive vs fresh is trusted")
+}
+
+// canonJSON re-renders a JSON body with object keys sorted and every array of strings sorted (lists the service
+// fills from a map come in no particular order); a body that is not JSON is returned as it is.
+func canonJSON(body string) string {
+	var v any
+	if json.Unmarshal([]byte(body), &v) != nil {
+		return body
+	}
+	var norm func(x any) any
+	norm = func(x any) any {
+		switch t := x.(type) {
+		case map[string]any:
+			for k, e := range t {
+				t[k] = norm(e)
+			}
+		case []any:
+			allStr := true
+			for i, e := range t {
+				t[i] = norm(e)
+				if _, ok := t[i].(string); !ok {
+					allStr = false
+				}
+			}
+			if allStr {
+				sort.Slice(t, func(i, j int) bool { return t[i].(string) < t[j].(string) })
+			}
+		}
+		return x
+	}
+	b, err := json.Marshal(norm(v))
+	if err != nil {
+		return body
+	}
+	return string(b)
 }
